@@ -191,7 +191,10 @@ class AArr:
         if name in table:
             f = table[name]
             return Builtin('ndarray.' + name, lambda args, kw: f(*args, **kw))
-        raise_py('AttributeError', f'ndarray has no attribute {name}')
+        if name == 'dtype':
+            return 'complex' if self.dtype != 'real' and self.dtype != 'int' else ('float' if self.dtype == 'real' else 'int')
+        # numpy arrays have many more attributes than are modelled: an unmodelled one is outside the subset, not an AttributeError
+        raise OutOfSubset(f'ndarray attribute {name} is not modelled')
 
     def transpose(self):
         if self.ndim < 2:
@@ -408,6 +411,8 @@ def _dtype_name(dtype):
     for k in ('complex', 'int', 'float', 'bool'):
         if dtype is TYPES[k]:
             return {'float': 'real'}.get(k, k)
+    if isinstance(dtype, str) and dtype in ('complex', 'int', 'float', 'bool'):
+        return {'float': 'real'}.get(dtype, dtype)       # the dtype attribute of a modelled array
     return None
 
 
